@@ -170,6 +170,14 @@ func Catalogue(prop, tier string) []Cfg {
 			c.Fault = true
 			add(c)
 		}
+		for _, mode := range []string{"", "norelease"} {
+			c := pc("s1", []uint{1}, 1, "fair", []int{2}, []int{2}, "", mode)
+			c.Stop = "twice"
+			add(c)
+			c = pc("v1", []uint{2, 1}, 2, "fair", []int{2}, []int{2, 1}, "pool", mode)
+			c.Stop = "twice"
+			add(c)
+		}
 		for _, stop := range []string{"stop", "cancel"} {
 			c := pc("v1", []uint{2, 1}, 2, "fair", []int{2}, []int{2}, "pool", "")
 			c.Stop = stop
@@ -638,7 +646,11 @@ func Catalogue(prop, tier string) []Cfg {
 			c.Late, c.Horizon = 1, 20
 			add(c)
 		}
+	case "C13":
+		// re-entrancy of the conversions (Engine A part; the input domain is Engine B's)
+		add(Cfg{Harness: "rate2", Bound: -1})
 	case "C20":
+		add(Cfg{Harness: "rate2", Bound: -1})
 		rc := func(disc string, mod func(c *Cfg)) {
 			c := Cfg{Harness: "race", Disc: disc, P: []uint{2, 1}, H: 2, Cap: []int{1}, N: []int{2}, J: 2, Bound: -1}
 			mod(&c)
@@ -693,8 +705,11 @@ func Catalogue(prop, tier string) []Cfg {
 		}
 		// the context already cancelled at creation; Stop() more than once
 		for _, stop := range []string{"precancel", "twice"} {
-			if stop == "precancel" {
+			{
 				c := pc("s1", []uint{2, 1}, 2, "fair", []int{2}, []int{2, 1}, "", "")
+				c.Stop = stop
+				add(c)
+				c = pc("s1", []uint{1}, 1, "fair", []int{2}, []int{2}, "", "norelease")
 				c.Stop = stop
 				add(c)
 			}
